@@ -145,7 +145,7 @@ mod v_iface_route {
         a.cidr == b.cidr && a.via_router == b.via_router && a.preferred_until == b.preferred_until && a.expires_at == b.expires_at
     }
 
-    // @harness props=C16 cfg=KI4,KI6 tier=q to=600 mem=4 unwind=KI4:8,KI6:18 opts=nomem covers=4 funcs=route::Routes::add_default_ipv4_route;route::Routes::add_default_ipv6_route;route::Routes::remove_default_ipv4_route;route::Routes::remove_default_ipv6_route;route::Routes::get_default_ipv4_route;route::Routes::lookup bounds=table_of_0..=2_routes_with_at_most_one_default_route;_any_unicast_gateway;_any_unicast_destination
+    // @harness props=C16 cfg=KI4,KI6 tier=q to=600 mem=8 unwind=KI4:8,KI6:18 opts=nomem covers=4 funcs=route::Routes::add_default_ipv4_route;route::Routes::add_default_ipv6_route;route::Routes::remove_default_ipv4_route;route::Routes::remove_default_ipv6_route;route::Routes::get_default_ipv4_route;route::Routes::lookup bounds=table_of_0..=2_routes_with_at_most_one_default_route;_any_unicast_gateway;_any_unicast_destination
     #[kani::proof]
     pub(crate) fn route_default_gateway() {
         let now = any_instant(0, T_MAX);
